@@ -77,6 +77,10 @@ where
         if !self.visit_index(&index) {
             self.process_unvisited_index(index, handler)
         } else {
+            // An already visited edge (the search origin reached again
+            // through its node) still leads to its sibling edges.
+            self.algorithm
+                .expand(index, self.graph, self.storage, false);
             Ok(true)
         }
     }
